@@ -122,7 +122,7 @@ func (c Column) migrationUp(tbName, after string, ident int) []string {
 		if isPk {
 			if _, isPrevPk := c.pkDefinition(true); isPrevPk {
 				// avoid repeat define primary key
-				def = strings.Replace(def, " "+sql.PrimaryOption(), "", 1)
+				def, _ = c.optionsDefinition(false, true)
 			}
 		}
 
@@ -133,7 +133,7 @@ func (c Column) migrationUp(tbName, after string, ident int) []string {
 		if isPrevPk {
 			if _, isPk := c.pkDefinition(false); isPk {
 				// avoid repeat define primary key
-				prevDef = strings.Replace(prevDef, " "+sql.PrimaryOption(), "", 1)
+				prevDef, _ = c.optionsDefinition(true, true)
 			}
 		}
 
@@ -181,6 +181,11 @@ func (c Column) migrationDown(tbName, after string) []string {
 }
 
 func (c Column) pkDefinition(isPrev bool) (string, bool) {
+	return c.optionsDefinition(isPrev, false)
+}
+
+// optionsDefinition renders the type followed by the options; with skipPk the PRIMARY KEY option is left out
+func (c Column) optionsDefinition(isPrev, skipPk bool) (string, bool) {
 	attr := c.CurrentAttr
 	if isPrev {
 		attr = c.PreviousAttr
@@ -191,6 +196,9 @@ func (c Column) pkDefinition(isPrev bool) (string, bool) {
 	for _, opt := range attr.Options {
 		if opt.Tp == ast.ColumnOptionPrimaryKey {
 			isPrimaryKey = true
+			if skipPk {
+				continue
+			}
 		}
 
 		b := bytes.NewBufferString("")
